@@ -3,7 +3,7 @@
    The model is Html/Model.v (all of /repo/html/lex.go and ToHash over the generated table); [run c n l] is a
    caller that calls Next n times whatever it returns; [cfg_ok c] says the two template delimiters contain no
    NUL byte (c = no_tmpl: NewLexer; the six predefined pairs satisfy it, cfg_ok_predefined). *)
-From Verif Require Import Common.Base Common.Lx Gen.Tables Html.Model Html.ListLemmas Html.Safety Html.Step Html.Spec Html.RawText Html.Proofs Html.Template Html.Wf Html.WfDoc Html.EndTag Html.TemplateMore Html.Script Html.TemplateAll.
+From Verif Require Import Common.Base Common.Lx Gen.Tables Html.Model Html.ListLemmas Html.Safety Html.Step Html.Spec Html.RawText Html.Proofs Html.Template Html.Wf Html.WfDoc Html.Sim Html.WfTmpl Html.EndTag Html.TemplateMore Html.Script Html.TemplateAll.
 
 (* C01 — no panic, no endless loop: n calls of Next succeed on every byte string, with or without template
    delimiters, whatever the caller does after an error. *)
@@ -151,22 +151,77 @@ Print Assumptions html_template_text_clean.
    the lexer, without template delimiters, returns exactly one token per construct
    (one per tag part; raw content as ONE Text token; an svg/math subtree as ONE SVG/Math token), with the right
    type, the bytes of the construct, lower-cased Text()/AttrKey() and verbatim AttrVal(), followed by the
-   end-of-input report.  [observe] reads type, token bytes, Text() and (for attributes) AttrVal() after each call.
+   end-of-input report.  [observe] reads type, token bytes, Text() and (for attributes) AttrVal() after each call; the
+   last conjunct reads HasTemplate() after each call: false (no delimiters are configured; Wf.next_no_tmpl_has).
    Constructs cut by the end of input (only as the last item; WfDoc.ITextLt and the ICut items): text ending with "<" or "</"
    (the '<' belongs to the text); "<!--" body, "<![CDATA[" body, "<!doctype" after: one Comment / Text / Doctype token
    to the end; "<?" / "<!" / "</"+non-letter body: one bogus Comment; "</" name ws: one EndTag; "<" name attributes:
-   StartTag and the Attribute tokens; a raw-text element (script with its double-escape rules) whose content has no
-   end tag (Script.raw_len = length): the tag tokens and ONE Text to the end.  In each case the end-of-input report follows.
-   NOT covered by this theorem (correspondence + Go oracle only): cuts inside an svg / math / xml element, inside a
-   quoted attribute value and inside the whitespace at the end of a tag; raw content that is empty (html_rawtext_end_exact
+   StartTag and the Attribute tokens, where the last attribute's quoted value may lack its closing quote
+   (Wf.cut_quoted_value: AttrVal() is the opening quote and everything after it); a raw-text element (script with its double-escape rules) whose content has no
+   end tag (Script.raw_len = length): the tag tokens and ONE Text to the end; an svg / math / xml element without its end
+   tag whose bytes after the name are read by shiftXML's first loop up to the end of input (WfDoc.ICutForeign over the step
+   function Wf.xml_step: the cut may fall in character data, inside a tag, a quoted attribute value, a comment, a CDATA
+   section or a processing instruction; no NUL): ONE SVG / Math / XML token to the end, no error; the same element cut
+   inside its end tag, after "</" name and whitespace (WfDoc.ICutForeignEnd): ONE token to the end, no error.  In each
+   case the end-of-input report follows.
+   A tag cut inside the whitespace after its name or after an attribute: html_wellformed_cut_tag_ws below.
+   NOT covered (correspondence + Go oracle only): raw content that is empty (html_rawtext_end_exact
    says where raw content ends in general); text containing a '<' that opens nothing (other than at the end of input);
-   names containing '/'; templates. *)
+   names containing '/'; templates inside constructs (regions between constructs and after text: html_wellformed_templates). *)
 Theorem html_wellformed_tokens_partial :
   forall items, wf_doc items ->
     exists tr, run no_tmpl (length (doc_obs items) + 1) (new_lexer (doc_bytes items)) = Ok tr /\
-               map observe tr = doc_obs items ++ [mkObs ErrorT [] [] []].
+               map observe tr = doc_obs items ++ [mkObs ErrorT [] [] []] /\
+               Forall (fun r => lhas (snd r) = false) tr.
 Proof. exact html_wellformed_tokens_proof. Qed.
 Print Assumptions html_wellformed_tokens_partial.
+
+(* C09 — well-formed documents, a tag cut inside trailing whitespace: complete constructs of the grammar (no plaintext,
+   no cut item) followed by "<" name attributes whitespace and the end of input (the name of an element that is not
+   svg / math / xml; the attributes as in a tag whose closer is the whitespace tws: an unquoted last value ends at
+   it, quoted values are closed): the tokens of the constructs, the StartTag and the Attribute tokens, then the
+   end-of-input report with empty Text(); the whitespace belongs to no token. *)
+Theorem html_wellformed_cut_tag_ws :
+  forall items name attrs tws, wf_doc items -> Forall (fun i => is_plain i = false) items ->
+    (exists c nm, name = c :: nm /\ is_letter c = true) -> Forall namechar name ->
+    (exists h, to_hash (map lower name) = Ok h /\ is_xml_hash h = false) -> all_ws tws -> wf_attrs attrs tws ->
+    let d := doc_bytes items ++ 60 :: name ++ concat (map attr_bytes attrs) ++ tws in
+    let os := doc_obs items ++ mkObs StartTagT (60 :: map lower name) (map lower name) [] :: map attr_obs attrs in
+    exists tr, run no_tmpl (length os + 1) (new_lexer d) = Ok tr /\ map observe tr = os ++ [mkObs ErrorT [] [] []] /\
+               Forall (fun r => lhas (snd r) = false) tr.
+Proof. exact html_wellformed_cut_ws_proof. Qed.
+Print Assumptions html_wellformed_cut_tag_ws.
+
+(* C09 — templates, transparency (one call, every context, every delimiter pair): if a call of Next made WITHOUT
+   delimiters returns (ty, tk, l') from a token boundary, and no opening delimiter starts at any byte the call consumed
+   (nor at the byte after the token when the call looks there: Text, Attribute and Error returns), then the same call
+   WITH the delimiters configured returns exactly the same token and state, and HasTemplate() is false.  (Sim.next_sim:
+   every scanning loop of the lexer, with its l.skipTemplate() / l.at(tmplBegin) tests, behaves as without them on
+   clean bytes.) *)
+Theorem html_template_transparent :
+  forall c d l ty tk l', cfg_ok c -> tb c <> [] -> html_inv d l -> lstart (lz l) = lpos (lz l) ->
+    next no_tmpl l = Ok (ty, tk, l') -> clean_range c d (lpos (lz l)) (lpos (lz l')) ->
+    (looks_end ty -> prefixb (tb c) (skipz (lpos (lz l')) d) = false) ->
+    next c l = Ok (ty, tk, l') /\ lhas l' = false.
+Proof. exact html_template_transparent_proof. Qed.
+Print Assumptions html_template_transparent.
+
+(* C09 — well-formed documents WITH templates (any delimiter pair): a document made of the constructs of the grammar
+   WfDoc.item (as in html_wellformed_tokens_partial, cut constructs included) and of delimited regions (Template.is_region)
+   placed between constructs, after text, at the start or at the end, where no opening delimiter starts inside a
+   construct's bytes (WfTmpl.wf_tdoc; a region may directly follow any construct whose last token is not a Text or
+   Attribute token — that excludes only CDATA sections and cut constructs — and any text): the lexer with the
+   delimiters configured returns the tokens of html_wellformed_tokens_partial for the constructs, each with
+   HasTemplate() = false, exactly ONE Template token per region (its bytes, empty Text(), HasTemplate() = true), then
+   the end-of-input report.  [observe_h] = ([observe], HasTemplate()).
+   NOT covered here (token level: html_template_exact and the attr / rawtext theorems; Go oracle c09-templates):
+   regions inside tags, attribute values, raw text, comments, CDATA, doctype, svg / math content. *)
+Theorem html_wellformed_templates :
+  forall c its, cfg_ok c -> tb c <> [] -> wf_tdoc c (tdoc_bytes its) [] its ->
+    exists tr, run c (length (tdoc_obs its) + 1) (new_lexer (tdoc_bytes its)) = Ok tr /\
+               map observe_h tr = tdoc_obs its ++ [(mkObs ErrorT [] [] [], false)].
+Proof. exact html_wellformed_templates_proof. Qed.
+Print Assumptions html_wellformed_templates.
 
 (* C02 / C09 — end tags are faithful (full clause, after fixes 980d021 and 7de66fe): for every end-tag token before
    the first error, with nr = the length of its name (the bytes after "</" up to the first whitespace, '>' or '/'),
@@ -177,21 +232,6 @@ Theorem html_endtag_faithful :
   forall c d n tr, cfg_ok c -> run c n (new_lexer d) = Ok tr -> Forall (endtag_faithful d) (until_error tr).
 Proof. exact html_endtag_faithful_proof. Qed.
 Print Assumptions html_endtag_faithful.
-
-(* C09 — templates, every context (witnesses; the general theorems for attributes, raw text and the other contexts are
-   being re-proved over the model of /repo 886e7b1 in Html/TemplateMore.v.wip): the former findings' inputs now give
-   ONE token that contains the whole region, HasTemplate() = true: <!-- {{x}} -->, <!-- {{ "-->" }} -->a,
-   <!doctype {{">"}}>, </a{{x}}>, <svg>{{"</svg>"}}</svg>, <math>{{x}}</math>. *)
-Theorem html_template_elsewhere_fixed_witnesses :
-  region_inside go_tmpl CommentT [60;33;45;45;32;123;123;120;125;125;32;45;45;62] 5 10 /\
-  region_inside go_tmpl CommentT [60;33;45;45;32;123;123;32;34;45;45;62;34;32;125;125;32;45;45;62;97] 5 16 /\
-  region_inside go_tmpl DoctypeT [60;33;100;111;99;116;121;112;101;32;123;123;34;62;34;125;125;62] 10 17 /\
-  region_inside go_tmpl EndTagT [60;47;97;123;123;120;125;125;62] 3 8 /\
-  region_inside go_tmpl SvgT [60;115;118;103;62;123;123;34;60;47;115;118;103;62;34;125;125;60;47;115;118;103;62] 5 17 /\
-  region_inside go_tmpl MathT [60;109;97;116;104;62;123;123;120;125;125;60;47;109;97;116;104;62] 6 11.
-Proof. exact html_template_elsewhere_fixed. Qed.
-Print Assumptions html_template_elsewhere_fixed_witnesses.
-
 
 (* C09 — templates, attribute names (partial): a region [p,q) that follows a tag name or an attribute after
    whitespace [cursor,a) and name bytes [a,p) at which no opening delimiter starts (name_plain: not whitespace,
@@ -306,16 +346,19 @@ Print Assumptions html_template_atomic_comment.
    and every state:
    (1) if a region [p,q) starts at a position p at which the call looks for a delimiter (TemplateAll.looked: in text;
        after whitespace and attribute-name bytes; at the start of an attribute value or inside a quoted value; in raw
-       text reached over plain bytes, regions and non-matching "</"+letters; in a comment, CDATA section, doctype, bogus
-       comment "<?…" / "<!…" or end tag, after bytes that are neither a delimiter start nor the construct's terminator),
+       text reached over plain bytes, regions and non-matching "</"+letters; in plaintext content; in a comment, CDATA
+       section, doctype, bogus comment "<?…" / "<!…" / "</"+non-letter or end tag, after bytes that are neither a
+       delimiter start nor the construct's terminator; in svg / math / xml content at every loop head of shiftXML
+       reached from the end of the start tag's name over steps at which no delimiter starts and over whole regions
+       (TemplateAll.xml_reach over the pure step function xml_step: tag / quote / comment / CDATA / PI state, nested
+       end tags jumped over), provided no NUL byte follows and no error is pending (else the token is an ErrorToken)),
        then the call returns ONE token that starts at or before p, contains the whole region and has HasTemplate() = true;
    (2) if the returned token has HasTemplate() = true, then a region lies inside the bytes the call consumed.
    Positions at which the lexer does not look (so (1) does not apply): the letters it jumps over after '<' or "</" in
    raw text, script "<!--" sections and svg / math content; the bytes of "<!--", "<![CDATA[", "<?" and of the terminators
    "-->", "]]>", "?>"; the blank after "<!doctype"; whitespace, '=' and the closers inside a tag; the first two bytes of
-   "</", "<!", "<?" and the first letter of a tag name.  Not in [looked] although the lexer looks there: positions
-   inside svg / math / xml content, plaintext content and bogus comments "</"+non-letter (covered by (2), by
-   html_template_elsewhere_fixed_witnesses and by the Go oracle). *)
+   "</", "<!", "<?" and the first letter of a tag name.  (The former witness theorem is gone: its inputs are instances,
+   e.g. TemplateAll.html_template_xml_looked for <svg>{{"</svg>"}}</svg>.) *)
 Theorem html_template_exact :
   forall c d l, cfg_ok c -> tb c <> [] -> html_inv d l ->
     (forall p q, looked c d l p -> is_region c d p q ->
